@@ -20,6 +20,43 @@ from .common import Scratch, run_parallel, NCPU
 LEVEL = "exploration"
 
 
+def _wide(chk, quick):
+    """64-bit arithmetic under UBSan: accepted BoundsGen wide-family modules (UInt/Int:31..64 leaves, landmark constants
+    around 2^31, 2^32, 2^63, 2^64), the virtual field read through the checked API at landmark environments."""
+    import re
+    from . import c05, bounds_pool, bounds_cpp
+    ncase = 900 if quick else 6000
+    procs = 4 if quick else 12
+    n = 0
+    with Scratch("c04w") as sc:
+        jobs = [(lambda k=k: c05._gen(sc, "wide%d" % k, dict(Family='"wide"', Exhaustive="FALSE", MaxDepth=3, MaxMag=0, NVars=3, FullConsts="FALSE"),
+                                      -(-ncase // procs), chk.seed * 1000 + 700 + k)) for k in range(procs)]
+        cases, defs, seen = [], None, set()
+        for name, res, d, cs in run_parallel(jobs, nproc=procs):
+            chk.add_tlc(res, part="BoundsGen-wide")
+            defs = defs or d
+            for c in cs:
+                key = repr((c["vars"], c["e"]))
+                if key not in seen:
+                    seen.add(key)
+                    c["id"] = len(cases)
+                    cases.append(c)
+        recs = bounds_pool.compile_cases(cases, defs, nproc=max(2, NCPU // 2))
+        acc = [r for r in recs if r["status"] == "accepted" and r["pos"] == "let"]
+        by_id = {r["id"]: r for r in acc}
+        wcases, wfail = bounds_cpp.evaluate(sc, acc, defs, n_env=8 if quick else 17, per_tu=25, nproc=max(2, NCPU // 2), san=True)
+        for status, detail, ids in wfail:
+            m = re.search(r"runtime error: ([^\n]{0,80})|ERROR: AddressSanitizer: (\S+)", str(detail))
+            what = (m.group(1) or m.group(2)) if m else status.lower()
+            what = re.sub(r"-?\d+", "N", what)
+            chk.violation("wide:%s:%s" % (status.lower(), what), "sanitizer build of the driver over accepted wide-family modules %s: %s\n%s" % (
+                ids[:5], status, str(detail)[-2500:]), {"ids": ids, "emb": [by_id[i]["emb"] for i in ids[:3] if i in by_id]})
+        n = sum(len(c["envs"]) for c in wcases)
+        chk.extra["wide_family_under_sanitizers"] = {"generated": len(cases), "accepted_and_driven": len(wcases), "reads": n}
+        chk.nontrivial_count += len(wcases)
+    return n
+
+
 def run(chk, only=None):
     quick = chk.tier == "quick"
     progs = view_catalog.catalog()
@@ -35,6 +72,9 @@ def run(chk, only=None):
                                   nproc=max(2, NCPU // 4)):
                 total += n
         chk.extra["enumerated_buffers_under_sanitizers"] = total
+    nwide = 0
+    if not only or "wide" in only:
+        nwide = _wide(chk, quick)
     ntr = nev = 0
     for mode, actions in (("single", ["wr", "tx"]), ("pair", ["cp", "eq", "wr"])):
         if only and mode not in only:
@@ -42,8 +82,8 @@ def run(chk, only=None):
         t, e = view_beh.run_behaviours(chk, mode, actions, nbeh=10 if quick else 200, depth=6 if quick else 10, progs=progs, san=True)
         ntr += t
         nev += e
-    chk.traces = total + ntr
-    chk.evaluations = total + nev
+    chk.traces = total + ntr + nwide
+    chk.evaluations = total + nev + nwide
     chk.nontrivial_count = total + chk.nontrivial_count
     chk.rule = ("one evaluation = one checked-API call sequence on one exact-size heap buffer under ASan+UBSan: (a) every byte string over "
                 "the per-program alphabet (program constants, 0, 1, 2, 3, 9, 0x80, 0x9a, 0xff) up to MaxSizeInBytes+2 with the whole "
@@ -53,5 +93,6 @@ def run(chk, only=None):
     chk.assumptions += [
         "clang-14 ASan/UBSan semantics; reads inside the allocation but outside the view's own sub-range are not visible",
         "the driver issues only calls the checked API permits in the state (decided by View.tla: Read when Ok, Equals when both Ok)",
-        "field widths <= 24 bits in these programs; 64-bit arithmetic edges are exercised by C02/C03/C05 drivers without sanitizers",
+        "field widths <= 24 bits in the catalogue/ProgGen programs; 64-bit arithmetic edges come from the BoundsGen wide family (part wide): "
+        "Ok()/Read() of the virtual field at landmark environments (type minima/maxima, 2^31, 2^32, 2^63 neighbours), values not judged here (C05 does)",
     ]
